@@ -742,16 +742,55 @@ func r10_1(c *Ctx, lf *lexFacts, la *lexAnchors, capOK bool) {
 					_, isRp := isFieldLoad(idx, la.rpos)
 					guard := false
 					for _, ob := range f.Blocks {
-						if iff := blockIf(ob); iff != nil {
-							if bo, ok := iff.Cond.(*ssa.BinOp); ok && bo.Op == token.GEQ {
-								_, xr := isFieldLoad(bo.X, la.rpos)
-								l, isLen := isBuiltinCall(bo.Y, "len")
-								if xr && isLen {
-									if _, ok := isFieldLoad(l.Call.Args[0], la.input); ok && condEdgeDominates(ob, false, b) {
-										guard = true
-									}
+						iff := blockIf(ob)
+						if iff == nil {
+							continue
+						}
+						bo, ok := iff.Cond.(*ssa.BinOp)
+						if !ok {
+							continue
+						}
+						// rp >= len / rp < len / len <= rp / len > rp: the edge on which rp < len holds
+						x, y, op := bo.X, bo.Y, bo.Op
+						if _, isLen := isBuiltinCall(x, "len"); isLen {
+							x, y = y, x
+							switch op {
+							case token.LEQ:
+								op = token.GEQ
+							case token.GTR:
+								op = token.LSS
+							default:
+								continue
+							}
+						}
+						var inRange bool
+						switch op {
+						case token.GEQ:
+							inRange = false
+						case token.LSS:
+							inRange = true
+						default:
+							continue
+						}
+						_, xr := isFieldLoad(x, la.rpos)
+						l, isLen := isBuiltinCall(y, "len")
+						if !xr || !isLen {
+							continue
+						}
+						if _, ok := isFieldLoad(l.Call.Args[0], la.input); !ok || !condEdgeDominates(ob, inRange, b) {
+							continue
+						}
+						// the position is not moved between the test and the access
+						moved := false
+						allInstrs(f, func(_ *ssa.BasicBlock, _ int, in2 ssa.Instruction) {
+							if st, ok := in2.(*ssa.Store); ok {
+								if _, ok := isFieldAddr(st.Addr, la.rpos); ok && instrReachableAfter(iff, st) && instrReachableAfter(st, in) && !instrDominates(in, st) {
+									moved = true
 								}
 							}
+						})
+						if !moved {
+							guard = true
 						}
 					}
 					c.check(isRp && guard, k, in.Pos(), "input[readPosition] under readPosition < len(input)", "the input is indexed without the dominating `readPosition >= len(input)` test (or not at readPosition): reading past the end panics")
@@ -840,7 +879,26 @@ func r10_1(c *Ctx, lf *lexFacts, la *lexAnchors, capOK bool) {
 					c.check(nonNil, k, in.Pos(), "the token-function field only ever holds the base function or a wrapper closure", "the token-function field can be nil")
 					return
 				}
-				if _, isParam := v.(*ssa.Parameter); isParam {
+				if par, isParam := v.(*ssa.Parameter); isParam {
+					idx := -1
+					for i, q := range f.Params {
+						if q == par {
+							idx = i
+						}
+					}
+					if args, closed := c.argsAtCallers(f, idx); closed {
+						// private helper: every call site hands it a function
+						all := true
+						for _, a := range args {
+							switch a.(type) {
+							case *ssa.Function, *ssa.MakeClosure:
+							default:
+								all = false
+							}
+						}
+						c.check(all, k, in.Pos(), fmt.Sprintf("every one of the %d call sites passes a function", len(args)), "a call site passes a value that may be a nil function")
+						return
+					}
 					c.ok(k, in.Pos(), "plugin-supplied interceptor (assumed non-nil; outside the analysed program)")
 					return
 				}
@@ -1039,7 +1097,10 @@ func r10_3(c *Ctx, lf *lexFacts, la *lexAnchors) {
 // R10.4 literal = source slice
 
 func r10_4(c *Ctx, lf *lexFacts, la *lexAnchors) {
+	// slice scanners: methods whose first result is a string that is a slice of the input, or the result of
+	// another slice scanner (fixpoint over delegation)
 	sliceScanners := map[*ssa.Function]bool{}
+	var cands []*ssa.Function
 	for _, f := range c.libFunctions("lexer") {
 		if f.Signature.Recv() == nil || f.Signature.Results().Len() == 0 {
 			continue
@@ -1048,19 +1109,46 @@ func r10_4(c *Ctx, lf *lexFacts, la *lexAnchors) {
 		if !ok || rb.Kind() != types.String {
 			continue
 		}
-		// does it return slices of the input?
-		usesSlice := false
-		allInstrs(f, func(_ *ssa.BasicBlock, _ int, in ssa.Instruction) {
-			if sl, ok := in.(*ssa.Slice); ok {
-				if _, ok := isFieldLoad(sl.X, la.input); ok {
-					usesSlice = true
-				}
+		cands = append(cands, f)
+	}
+	delegate := func(v ssa.Value) *ssa.Call {
+		switch x := v.(type) {
+		case *ssa.Extract:
+			if x.Index == 0 {
+				call, _ := x.Tuple.(*ssa.Call)
+				return call
 			}
-		})
-		if !usesSlice {
+		case *ssa.Call:
+			return x
+		}
+		return nil
+	}
+	for changed := true; changed; {
+		changed = false
+		for _, f := range cands {
+			if sliceScanners[f] {
+				continue
+			}
+			allInstrs(f, func(_ *ssa.BasicBlock, _ int, in ssa.Instruction) {
+				r, ok := in.(*ssa.Return)
+				if !ok || sliceScanners[f] {
+					return
+				}
+				if sl, ok := r.Results[0].(*ssa.Slice); ok {
+					if _, ok := isFieldLoad(sl.X, la.input); ok {
+						sliceScanners[f], changed = true, true
+					}
+				}
+				if call := delegate(r.Results[0]); call != nil && sliceScanners[call.Call.StaticCallee()] {
+					sliceScanners[f], changed = true, true
+				}
+			})
+		}
+	}
+	for _, f := range cands {
+		if !sliceScanners[f] {
 			continue
 		}
-		sliceScanners[f] = true
 		nret := 0
 		allInstrs(f, func(_ *ssa.BasicBlock, _ int, in ssa.Instruction) {
 			r, ok := in.(*ssa.Return)
@@ -1070,12 +1158,16 @@ func r10_4(c *Ctx, lf *lexFacts, la *lexAnchors) {
 			nret++
 			key := fmt.Sprintf("%s: return #%d", fnName(f), nret)
 			v := r.Results[0]
-			// tail call of another slice scanner
-			if ex, ok := v.(*ssa.Extract); ok {
-				if call, ok := ex.Tuple.(*ssa.Call); ok && sliceScanners[call.Call.StaticCallee()] || ok && isSliceScannerCall(call, la) {
-					c.ok(key, r.Pos(), "returns the literal of %s", call.Call.StaticCallee().Name())
-					return
+			// delegation to another slice scanner: that scanner starts where this one started
+			if call := delegate(v); call != nil && sliceScanners[call.Call.StaticCallee()] {
+				atEntry := true
+				for _, cx := range lf.contextsOf(f) {
+					if st := cx.before[call]; st != nil && st.live && !st.noAdv {
+						atEntry = false
+					}
 				}
+				c.check(atEntry, key, r.Pos(), "returns the literal of "+call.Call.StaticCallee().Name()+", called before any advance", "the literal is delegated to "+call.Call.StaticCallee().Name()+" after this scanner already advanced: the bytes consumed before the call are missing from the literal")
+				return
 			}
 			sl, ok := v.(*ssa.Slice)
 			good := false
@@ -1289,9 +1381,9 @@ func r10_6(c *Ctx, lf *lexFacts) {
 	for _, f := range c.libFunctions() {
 		allInstrs(f, func(_ *ssa.BasicBlock, _ int, in ssa.Instruction) {
 			if st, ok := in.(*ssa.Store); ok {
-				if _, ok := isFieldAddr(st.Addr, lf.nlFlag); ok && f != lf.skipper {
+				if _, ok := isFieldAddr(st.Addr, lf.nlFlag); ok && !lf.isSkipperFn(f) {
 					if _, isCtor := st.Addr.(*ssa.FieldAddr).X.(*ssa.Alloc); !isCtor {
-						c.bad(fnName(f)+": writes the after-newline flag", st.Pos(), "only the trivia skipper may write the flag")
+						c.bad(fnName(f)+": writes the after-newline flag", st.Pos(), "only the trivia skipper (and helpers called from nowhere else) may write the flag")
 					}
 				}
 			}
@@ -1311,22 +1403,27 @@ func r10_6(c *Ctx, lf *lexFacts) {
 	}
 	c.check(cleared, "skipper: flag cleared at entry", lf.skipper.Pos(), "false before the first advance", "the after-newline flag is not cleared when trivia skipping starts: a newline before an earlier token leaks to later tokens")
 	// set before every advance over a byte that may be '\n'
-	for _, cx := range lf.contextsOf(lf.skipper) {
-		n := 0
-		allInstrs(lf.skipper, func(_ *ssa.BasicBlock, _ int, in ssa.Instruction) {
-			call, ok := in.(*ssa.Call)
-			if !ok || call.Call.StaticCallee() != lf.advance {
-				return
-			}
-			n++
-			st := cx.before[call]
-			key := fmt.Sprintf("skipper: advance #%d", n)
-			if st == nil || !st.live {
-				c.info(key+" unreachable", call.Pos(), "not reached by the analysis")
-				return
-			}
-			c.check(!(st.cur.has('\n') && st.flagU.has('\n')), key, call.Pos(), fmt.Sprintf("current byte %s; flag set whenever it is a line break", st.cur), "the skipper advances over a byte that may be '\\n' without having set the after-newline flag on that path: the next token is not marked as following a line break (ASI then fuses two statements)")
-		})
+	for _, skf := range lf.skipperFns() {
+		for _, cx := range lf.contextsOf(skf) {
+			n := 0
+			allInstrs(skf, func(_ *ssa.BasicBlock, _ int, in ssa.Instruction) {
+				call, ok := in.(*ssa.Call)
+				if !ok || call.Call.StaticCallee() != lf.advance {
+					return
+				}
+				n++
+				st := cx.before[call]
+				key := fmt.Sprintf("skipper: advance #%d", n)
+				if skf != lf.skipper {
+					key = fmt.Sprintf("skipper helper %s: advance #%d", skf.Name(), n)
+				}
+				if st == nil || !st.live {
+					c.info(key+" unreachable", call.Pos(), "not reached by the analysis")
+					return
+				}
+				c.check(!(st.cur.has('\n') && st.flagU.has('\n')), key, call.Pos(), fmt.Sprintf("current byte %s; flag set whenever it is a line break", st.cur), "the skipper advances over a byte that may be '\\n' without having set the after-newline flag on that path: the next token is not marked as following a line break (ASI then fuses two statements)")
+			})
+		}
 	}
 	// every token.Token literal in the lexer copies the flag and a fresh copy of the trivia buffer
 	n := 0
@@ -1377,57 +1474,64 @@ func r10_7(c *Ctx, lf *lexFacts, la *lexAnchors, t *tables) {
 	}
 	// by role: the predicate the skipper loops on
 	if ws.empty() {
-		allInstrs(lf.skipper, func(_ *ssa.BasicBlock, _ int, in ssa.Instruction) {
-			if call, ok := in.(*ssa.Call); ok {
-				if s, ok := lf.preds[call.Call.StaticCallee()]; ok {
-					ws = s
-				}
-			}
-		})
-	}
-	// skipper: every advance is over whitespace, over '/' (comment opener) or inside a comment
-	for _, cx := range lf.contextsOf(lf.skipper) {
-		n := 0
-		var openers []*ssa.Call
-		allInstrs(lf.skipper, func(_ *ssa.BasicBlock, _ int, in ssa.Instruction) {
-			call, ok := in.(*ssa.Call)
-			if !ok || call.Call.StaticCallee() != lf.advance {
-				return
-			}
-			n++
-			st := cx.before[call]
-			key := fmt.Sprintf("skipper: advance #%d consumes trivia", n)
-			if st == nil || !st.live {
-				return
-			}
-			slash := setOf('/')
-			switch {
-			case st.cur.sub(ws):
-				c.ok(key, call.Pos(), "whitespace %s", st.cur)
-			case st.cur == slash:
-				// first '/' needs the look-ahead '/', the second follows it
-				if st.peek == slash || len(openers)%2 == 1 {
-					openers = append(openers, call)
-					c.ok(key, call.Pos(), "'/' of a `//` comment opener")
-				} else {
-					c.bad(key, call.Pos(), "a single '/' is consumed as trivia: the division operator disappears from the token stream")
-				}
-			default:
-				inComment := false
-				for _, o := range openers {
-					if instrDominates(o, call) {
-						inComment = true
+		for _, skf := range lf.skipperFns() {
+			allInstrs(skf, func(_ *ssa.BasicBlock, _ int, in ssa.Instruction) {
+				if call, ok := in.(*ssa.Call); ok {
+					if s, ok := lf.preds[call.Call.StaticCallee()]; ok {
+						ws = s
 					}
 				}
-				if inComment && !st.cur.has(0) || inComment && st.cur.sub(setOf('\n')) {
-					c.ok(key, call.Pos(), "comment body/terminator %s", st.cur)
-				} else if inComment {
-					c.bad(key, call.Pos(), "the comment scan advances although the current byte may be 0 (end of input)")
-				} else {
-					c.bad(key, call.Pos(), "the trivia skipper consumes a byte that may be program text (%s): that byte belongs to no token", st.cur)
+			})
+		}
+	}
+	// skipper: every advance is over whitespace, over '/' (comment opener) or inside a comment
+	for _, skf := range lf.skipperFns() {
+		for _, cx := range lf.contextsOf(skf) {
+			n := 0
+			var openers []*ssa.Call
+			allInstrs(skf, func(_ *ssa.BasicBlock, _ int, in ssa.Instruction) {
+				call, ok := in.(*ssa.Call)
+				if !ok || call.Call.StaticCallee() != lf.advance {
+					return
 				}
-			}
-		})
+				n++
+				st := cx.before[call]
+				key := fmt.Sprintf("skipper: advance #%d consumes trivia", n)
+				if skf != lf.skipper {
+					key = fmt.Sprintf("skipper helper %s: advance #%d consumes trivia", skf.Name(), n)
+				}
+				if st == nil || !st.live {
+					return
+				}
+				slash := setOf('/')
+				switch {
+				case st.cur.sub(ws):
+					c.ok(key, call.Pos(), "whitespace %s", st.cur)
+				case st.cur == slash:
+					// first '/' needs the look-ahead '/', the second follows it
+					if st.peek == slash || len(openers)%2 == 1 {
+						openers = append(openers, call)
+						c.ok(key, call.Pos(), "'/' of a `//` comment opener")
+					} else {
+						c.bad(key, call.Pos(), "a single '/' is consumed as trivia: the division operator disappears from the token stream")
+					}
+				default:
+					inComment := false
+					for _, o := range openers {
+						if instrDominates(o, call) {
+							inComment = true
+						}
+					}
+					if inComment && !st.cur.has(0) || inComment && st.cur.sub(setOf('\n')) {
+						c.ok(key, call.Pos(), "comment body/terminator %s", st.cur)
+					} else if inComment {
+						c.bad(key, call.Pos(), "the comment scan advances although the current byte may be 0 (end of input)")
+					} else {
+						c.bad(key, call.Pos(), "the trivia skipper consumes a byte that may be program text (%s): that byte belongs to no token", st.cur)
+					}
+				}
+			})
+		}
 	}
 	// dispatcher paths
 	base := lf.base
